@@ -267,6 +267,11 @@ def export_all(od, doc):
     canopen.export_od(od, path2, doc_type=doc)
     with open(path2) as f:
         docs["path+type"] = f.read()
+    other = "dcf" if doc == "eds" else "eds"
+    path3 = os.path.join(scratch_dir(), f"{os.getpid()}-exp3.{other}")
+    canopen.export_od(od, path3, doc_type=doc)       # the suffix is only the default for doc_type
+    with open(path3) as f:
+        docs["path+type, other suffix"] = f.read()
     buf = io.StringIO()
     canopen.export_od(od, buf, doc_type=doc)
     docs["stream"] = buf.getvalue()
@@ -303,6 +308,14 @@ def run_case(case) -> Outcome:
         if od.node_id is None and case["node_arg"] is not None:
             od.node_id = case["node_arg"]
     before = snapshot(od)
+    # what the generator put in, independently of the object that carries it (a set shared between
+    # dictionaries would make the object's own content wrong already)
+    want_baud = {kb * 1000 for kb in (model["baud"] or [])}
+    if before["baud"] != want_baud:
+        return Outcome(True, "setup", [Discrepancy(
+            "C14/devinfo/baudrates-before-export",
+            f"the dictionary holds allowed_baudrates {sorted(before['baud'])}, the {route}-built source "
+            f"describes {sorted(want_baud)}")])
     nt = set()
     for o in before["objects"].values():
         vars_ = [o["var"]] if "var" in o else list(o["subs"].values())
